@@ -200,5 +200,9 @@ def run(repo: Repo, tier: str) -> Report:
     nb_layout(rep, kernels, ["tinterpolate"], rule="R-LAYOUT")
     rep.ob("R-DTYPE-DECL", AFILE, site.where(), "declared int16 == written int16", decl == ["int16"] and all(sig[-1][0] == "int16" for sig in k.sigs),
            f"output_dtypes = {decl}; signature output {[sig[-1] for sig in k.sigs]}", "tinterpolate output_dtypes", line=site.line)
+    from ..rules import r_stateless
+    r_stateless(rep, repo, [('WhittakerSmoother', 'whitint')])
+    from ..rules import ws2d_straight
+    ws2d_straight(rep, repo)
     rep.floor("C20 obligations", len(rep.obls), 20)
     return rep
